@@ -100,6 +100,8 @@ to_run_all := {sprintf("%s/%s", [c, t]) | some c, ts in main._rules_to_run; some
 
 noticed := {sprintf("%s/%s", [c, t]) | some c, ts in main._grouped_notices; some t, ns in ts; count(ns) > 0}
 
+noticed_noinput := {sprintf("%s/%s", [c, t]) | some c, t; count(data.regal.rules[c][t].notices) > 0}
+
 bundled := {sprintf("%s/%s", [c, t]) | some c, ts in data.regal.rules; some t, _ in ts}
 
 bundled_aggregate := {sprintf("%s/%s", [c, t]) | some c, ts in data.regal.rules; some t, r in ts; r.aggregate}
@@ -157,8 +159,9 @@ type CaseOut struct {
 	EnabledAgg     []string   `json:"enabled_agg"`
 	EnabledErr     string     `json:"enabled_err,omitempty"`
 	// for full-bundle cases: the sets main.rego computes for the same configuration
-	ToRunAll []string `json:"to_run_all"`
-	Noticed  []string `json:"noticed"`
+	ToRunAll       []string `json:"to_run_all"`
+	Noticed        []string `json:"noticed"`
+	NoticedNoInput []string `json:"noticed_noinput"` // notices that do not depend on the input (what DetermineEnabledRules sees)
 }
 
 type env struct {
@@ -167,6 +170,7 @@ type env struct {
 	pqFn      rego.PreparedEvalQuery
 	pqAgg     rego.PreparedEvalQuery
 	pqSets    rego.PreparedEvalQuery
+	pqNoIn    rego.PreparedEvalQuery
 	pqBundled rego.PreparedEvalQuery
 	astBase   ast.Object
 	mu        sync.Mutex
@@ -205,6 +209,7 @@ func newEnv() *env {
 	e.pqFn = prep(`o := data.verif.c04.out`+with, true)
 	e.pqAgg = prep(`o := data.verif.c04.agg_report`+with, true)
 	e.pqSets = prep(`o := {"to_run_all": data.verif.c04.to_run_all, "noticed": data.verif.c04.noticed}`+with, false)
+	e.pqNoIn = prep(`o := data.verif.c04.noticed_noinput`+with, false)
 	e.pqBundled = prep(`o := {"bundled": data.verif.c04.bundled, "bundled_aggregate": data.verif.c04.bundled_aggregate}`, false)
 	in, err := rules.InputFromText("p.rego", policy)
 	must(err)
@@ -443,6 +448,16 @@ func (e *env) runCase(c *CaseIn) CaseOut {
 			o.ToRunAll = strs(r["to_run_all"])
 			o.Noticed = strs(r["noticed"])
 		}
+		if c.Lint {
+			noIn := ast.NewObject()
+			noIn.Insert(ast.StringTerm("verif"), verif)
+			rs, err = e.pqNoIn.Eval(e.ctx, rego.EvalParsedInput(noIn))
+			if err != nil || len(rs) != 1 {
+				o.Err = fmt.Sprintf("noinput eval: %v (%d results)", err, len(rs))
+				return o
+			}
+			o.NoticedNoInput = strs(rs[0].Bindings["o"])
+		}
 	}
 	if c.Lint {
 		l, err := e.baseLinter(c)
@@ -653,10 +668,10 @@ func main() {
 			}
 		}
 		// ---- full Lint + DetermineEnabledRules on sampled combinations (reduced and real provided config)
-		nLint := 120
-		nGen := 160
+		nLint := 48
+		nGen := 64
 		if tier == "thorough" {
-			nLint, nGen = 1500, 1500
+			nLint, nGen = 1000, 1200
 		}
 		if v := os.Getenv("C04_N"); v != "" {
 			fmt.Sscanf(v, "%d,%d", &nLint, &nGen)
